@@ -2,7 +2,7 @@ from common import *
 import itertools
 ID = 'C20'
 TRANSLATORS = []
-COQ_TARGETS = ['Corr/Dispatch.vo']
+COQ_TARGETS = ['Properties_C20.vo']
 HARNESS_MODS = ['sx']
 RULE = ('cases: sx.parse h:input mode (0: NUL-terminated copy, sx_parse_string; 1: exact-size heap block without terminator, sx_parse_stringn; obs: status, '
         'position and the tree in preorder on success / "no-tree" on error, allocation balance from the sanitizer\'s allocator statistics) and '
@@ -13,9 +13,9 @@ RULE = ('cases: sx.parse h:input mode (0: NUL-terminated copy, sx_parse_string; 
 TRUSTED_BASE = TB_COMMON + ['Model/Sx.v is hand-written from src/sx.c; tie = correspondence (exact-size heap blocks under ASan for the no-over-read clause, allocator statistics for leaks)']
 ASSUMPTIONS = ['octets below 128 (C locale character classes)', 'integers are taken modulo 2^64', 'allocation failure (the library exits) is outside the domain']
 EXHAUSTIVE = {'quick': False, 'thorough': False}
-TECHNIQUE = 'Coq proof + correspondence'
-LEVEL_TEXT = 'wip'
-LEVEL_NOTE = 'wip'
+TECHNIQUE = 'Coq proof (reader inverts every rendering; accepted input is a rendering; everything else rejected; termination; numeral values) + correspondence on exact-size heap blocks under ASan with allocation balance'
+LEVEL_TEXT = 'Theorems in Properties_C20.v about Model/Sx.v for all ASCII inputs: every rendering of every tree of symbols, 64-bit unsigned integers (decimal, #x hexadecimal in any mixture of cases) and nested proper lists (incl. empty lists at any depth), with arbitrary white space, is read back as the identical tree at the position just past it; conversely whatever is accepted is such a rendering; an input that does not begin with a complete expression yields an error status; the reader terminates on every input and is a function of the n given octets only.  Model tied to the C by correspondence (NUL-terminated and length-delimited exact-size blocks under ASan, allocation balance from the sanitizer allocator statistics, all strings up to length 5/6 over a 10-character alphabet, rendered trees cut at every position).'
+LEVEL_NOTE = 'Partial for the runtime clauses: no over-read / no leak of the compiled code are observed (ASan, allocator statistics) on executed cases; the theorems cover the reader as a function. Trusted: Coq kernel; hand model of sx.c; correspondence. Octets < 128. No axioms.'
 NO_SHRINK = False
 
 ALPHA = [ord(c) for c in '() \na1#xF{']
